@@ -60,6 +60,9 @@ type Sched struct {
 	// checked, but its interleaving was not decided by the plan.
 	Aborted bool
 	abort   bool
+	// LockAt receives (only while First is recorded, i.e. on single-task runs) the yield index of every lock
+	// acquisition of the task: where its critical sections begin.
+	LockAt []uint32
 	// lock-aware scheduling: instrumented "X.Lock()" statements spin on TryLock and call blocked() each time the lock
 	// is taken. blockedNow[i] = task i found its lock taken and nobody has made progress since. When every unfinished
 	// task is in that state no baton pass can ever help: Deadlock is set (with the sites), and the tasks are unwound by
@@ -170,6 +173,15 @@ func (s *Sched) yield(site int) {
 	}
 	s.cur = to
 	s.wait(me)
+}
+
+// acquired is installed as simhook.AcquiredHook.
+//
+//go:norace
+func (s *Sched) acquired(site int) {
+	if s.active && !s.abort && s.First != nil && len(s.LockAt) < 256 {
+		s.LockAt = append(s.LockAt, uint32(s.Yields))
+	}
 }
 
 // blocked is installed as simhook.BlockedHook: the running task found the lock it wants taken. The baton goes to the
@@ -304,6 +316,7 @@ func (s *Sched) Run(tasks []func()) {
 	}
 	simhook.Hook = s.yield
 	simhook.BlockedHook = s.blocked
+	simhook.AcquiredHook = s.acquired
 	simhook.ResetOnce()
 	finished := make([]chan struct{}, s.n)
 	s.active = true
@@ -339,6 +352,7 @@ func (s *Sched) Run(tasks []func()) {
 	s.active = false
 	simhook.Hook = nil
 	simhook.BlockedHook = nil
+	simhook.AcquiredHook = nil
 }
 
 //go:norace
